@@ -2,12 +2,13 @@
 from harness.gen import texts as T
 
 FORMAT = 'https://www.debian.org/doc/packaging-manuals/copyright-format/1.0/'
-HOLDERS = ['Jane Doe', 'ACME Inc.', 'The  Foo   Authors', 'J. R. <j@r.org>', 'Ünï Cödé', 'a', 'Free Software Foundation, Inc.']
+HOLDERS = ['Jane Doe', 'ACME Inc.', 'The  Foo   Authors', 'J. R. <j@r.org>', 'Ünï Cödé', 'a', 'Free Software Foundation, Inc.',
+           'Jane Doe <jane@x.org> (release manager)', 'A <a@b.c>, B <b@c.d>', '(c) 2012 Foo', 'Copyright (c) 2012 Foo', '2003 The Authors', '3 Guys Software']
 YEARS = ['2019', '2001-2019', '1999,2001', '2001-2005,', '(2010)', '2010-', '1995-1996,1998']
 NONYEARS = ['Copyright', '(c)', 'c2019', '2019a', 'by']
 SHORT = ['GPL-2+', 'MIT', 'Apache-2.0', 'GPL-2+ or MIT', 'BSD-3-clause', 'public-domain', 'LGPL-2.1+ with exception']
 TOKENS = ['*', 'src/*', 'debian/*', 'foo.c', 'a/b/c.h', '*.txt', 'doc/?.md']
-EXTRA_NAMES = ['X-Foo', 'Origin', 'Bar', 'X-Comment-2', 'Notes']
+EXTRA_NAMES = ['X-Foo', 'Origin', 'Bar', 'X-Comment-2', 'Notes', 'Extra-Data', 'Line-Numbers-By-Field', 'X-Licence', 'Sublicence']
 WORDS = [w for w in T.WORDS if not w.startswith('.')]
 
 
@@ -57,13 +58,18 @@ def st_text(st):
     return (y + ' ' + h).strip() if y else h
 
 
+def _year_like(w):
+    import string
+    return bool(w) and all(c in string.digits + string.punctuation + ' ' for c in w) and any(c in string.digits for c in w)
+
+
 def st_expected(st):
-    y, h = st
-    h1 = ' '.join(h.split())
-    if y:
-        return [y, h1]
-    # the first token of the holder is not a year range (by construction)
-    return ['', h1]
+    """the statement as the property reads it: white space collapsed; the FIRST word is the year range when it is made
+    of digits and punctuation with at least one digit, the rest is the holder"""
+    ws = st_text(st).split()
+    if ws and _year_like(ws[0]):
+        return [ws[0], ' '.join(ws[1:])]
+    return ['', ' '.join(ws)]
 
 
 def extras(rng):
